@@ -127,6 +127,9 @@ class Canon:
                 return p_mul(self.poly(e.left), p_atom(f"inv({p_str(den)})"))
         if isinstance(e, ast.UnaryOp) and isinstance(e.op, ast.USub):
             return p_neg(self.poly(e.operand))
+        if isinstance(e, ast.Call) and norm(e.func) == "float" and len(e.args) == 1 and isinstance(e.args[0], ast.Constant) \
+                and isinstance(e.args[0].value, str) and e.args[0].value.strip().lower().lstrip("+-") in ("inf", "infinity"):
+            return p_neg(p_atom("inf")) if e.args[0].value.strip().startswith("-") else p_atom("inf")
         if isinstance(e, ast.Call):
             nm = norm(e.func)
             args = [self.poly(a) for a in e.args]
@@ -144,8 +147,16 @@ class Canon:
                 return p_atom(f"{short}({p_str(args[0])})")
             if nm in ("np.logaddexp",):
                 return p_atom(f"logaddexp({', '.join(sorted(p_str(a) for a in args))})")
-        if isinstance(e, ast.Attribute) and norm(e) in ("np.inf", "math.inf", "numpy.inf"):
+        if isinstance(e, ast.Attribute) and norm(e) in ("np.inf", "math.inf", "numpy.inf", "np.Inf", "np.infty"):
             return p_atom("inf")
+        if isinstance(e, ast.Attribute) and norm(e) in ("np.NINF", "numpy.NINF"):
+            return p_neg(p_atom("inf"))
+        # finite limits of the float type: a value, not an infinity (it is neither absorbing for + nor neutral for max/min on all scores)
+        if isinstance(e, ast.Attribute) and e.attr in ("min", "max", "tiny", "eps", "smallest_normal") and \
+                (("finfo(" in norm(e.value) or "iinfo(" in norm(e.value)) or norm(e.value) in ("sys.float_info", "float_info")):
+            return p_atom(f"finite[{norm(e)}]")
+        if isinstance(e, ast.Attribute) and norm(e) in ("sys.maxsize",):
+            return p_atom(f"finite[{norm(e)}]")
         raise AnalysisError(f"semiring body: expression `{norm(e)}` not understood")
 
 
